@@ -324,7 +324,14 @@ class Env:
                 return r
         r = self._ev(t, mode)
         if small is not None:
-            memo[small] = r
+            if len(memo) > 400_000:
+                memo.clear()
+            v = r[1] if r[0] == "ok" else 0
+            v = getattr(v, "_magnitude", v)
+            big = (isinstance(v, int) and v.bit_length() > 4096) or (
+                isinstance(v, Fraction) and max(v.numerator.bit_length(), v.denominator.bit_length()) > 4096)
+            if not big:
+                memo[small] = r
         return r
 
     def _ev(self, t, mode):
@@ -1108,6 +1115,10 @@ def wl_fuzz(spec, rec, cmp, envs, rng):
             if not isinstance(v, env.Q) and not (isinstance(v, numeric) and not isinstance(v, bool)):
                 rec.violation("parse-returned-foreign-object", {"string": s, "type": type(v).__name__, "value": short(v)},
                               result_type=type(v).__name__, family=fam)
+            elif type(v) not in (int, float, complex, Decimal, Fraction) and not isinstance(v, env.Q):
+                rec.count("fuzz_numeric_subclass_results")
+                if rng.random() < 0.02:
+                    rec.observe("fuzz_numeric_subclass_examples", f"{type(v).__name__}: {s[:40]!r}")
             elif _FOREIGN & set(s):
                 rec.count("fuzz_value_despite_foreign_characters(reported only)")
                 if i % 50 == 0:
